@@ -4,6 +4,7 @@ from ..runner import Prop, Group
 from . import gs_common as G
 
 class C01(Prop):
+    layouts = True
     pid = "C01"
     sources = ["socialchoicekit/deterministic_matching.py"]
     groups = {"gs": Group("gs", "From SCK Require Import Argsort RunGS.", "RunGS.gs_case", "RunGS.chk_gs")}
